@@ -3,12 +3,12 @@
 package props
 
 import (
-	"golang.org/x/text/unicode/norm"
 	"crypto/sha1"
 	"encoding/binary"
 	"encoding/hex"
 	"encoding/json"
 	"fmt"
+	"golang.org/x/text/unicode/norm"
 	"hash/fnv"
 	nurl "net/url"
 	"os"
